@@ -11,10 +11,10 @@ def register(prop, J):
               "threshold is within 1 of the query length, or the envelope is a malformed/hand-written one; distinct by "
               "(level, verb/kind, path, query, body, threshold or malformed class+variant)",
          jobs=[
-             J("fn-v2", "v2", "tunnelprops", fn, checks=(160000, 5000000), shards=(8, 16)),
-             J("wire-v2", "v2", "tunnelprops", wire, checks=(36000, 560000), shards=(12, 16)),
-             J("fn-v1", "v1", "tunnelprops", fn, checks=(60000, 1600000), shards=(4, 16)),
-             J("wire-v1", "v1", "tunnelprops", wire, checks=(16000, 200000), shards=(8, 16)),
+             J("fn-v2", "v2", "tunnelprops", fn, checks=(160000, 10000000), shards=(8, 16)),
+             J("wire-v2", "v2", "tunnelprops", wire, checks=(36000, 1120000), shards=(12, 16)),
+             J("fn-v1", "v1", "tunnelprops", fn, checks=(60000, 3200000), shards=(4, 16)),
+             J("wire-v1", "v1", "tunnelprops", wire, checks=(16000, 400000), shards=(8, 16)),
          ],
          level_text="generated-input search against a reference model of tunnelling (decision rule, expected request, independent "
                     "envelope writer): Decode(Encode(x)) on requests re-parsed off the wire for arbitrary query bytes and bodies; "
